@@ -8,17 +8,20 @@ From SAV.orm Require Import IdMap IdMapSpec IdMapLemmas IdMapProofs.
 Open Scope Z_scope.
 
 Definition act (t : option bool) : bool := match t with Some true => false | _ => true end.
-Definition kb (t : option bool) (o : obj) : bool :=
+Definition kb (active : bool) (o : obj) : bool :=
   implb (persistent o) (iimap o) && implb (iimap o) (osess o) && implb (inew o) (osess o) &&
   implb (isdel o) (iimap o) &&
-  implb (act t && itdel o) (negb (iimap o) && odel o && is_some (okey o)).
-Definition jk (t : option bool) (o : obj) : bool := jb o && kb t o.
+  implb (active && itdel o) (negb (iimap o) && odel o && is_some (okey o)).
+Definition jk (t : option bool) (o : obj) : bool := jb o && kb (act t) o.
 Definition G (st : state) : Prop := bad st = false -> SP (fun _ => jk (tx st)) st.
 
 Ltac kcase := unfold jk, kb, jb, persistent; ocase.
+Ltac kcase2 := unfold jk, kb, jb, persistent; ocase2.
+(* the transaction status matters only through [act] *)
+Ltac tcase := intros; unfold jk; repeat match goal with t : option bool |- _ => generalize (act t); clear t; intros [] end; kcase.
 
 Lemma jk_deact : forall t o, jk t o = true -> jk (Some true) o = true.
-Proof. intros [[]|]; kcase. Qed.
+Proof. intros t; unfold jk; generalize (act t); clear t; intros []; kcase. Qed.
 Lemma jk_begin : forall o, jk None o = true -> jk (Some false) o = true.
 Proof. kcase. Qed.
 
@@ -77,7 +80,7 @@ Proof.
   apply G_pass; [apply autobegin_inv; auto|apply G_autobegin; auto|].
   intros k o Hk Hj. unfold only. destruct (Nat.eqb_spec k i); [subst|auto].
   assert (Ko : okey o = None) by (rewrite <- (get_nth _ _ _ Hk), autobegin_get; exact E).
-  revert Hj Ko. generalize (tx (autobegin st)). intros [[]|]; kcase.
+  revert Hj Ko. generalize (tx (autobegin st)). intros t0; unfold jk; generalize (act t0); clear t0; intros []; kcase.
 Qed.
 
 Lemma update_impl_G : forall i st, Inv st -> G st -> G (fst (update_impl i st)).
@@ -89,7 +92,7 @@ Proof.
   intros j o Hj Hjk. unfold only. destruct (Nat.eqb_spec j i); [subst|auto].
   assert (Ko : okey o = Some k /\ odel o = false).
   { rewrite <- (get_nth _ _ _ Hj), autobegin_get. auto. }
-  destruct Ko as [K1 K2]. revert Hjk K1 K2. generalize (tx (autobegin st)). intros [[]|]; kcase.
+  destruct Ko as [K1 K2]. revert Hjk K1 K2. generalize (tx (autobegin st)). intros t0; unfold jk; generalize (act t0); clear t0; intros []; kcase.
 Qed.
 
 Lemma delete_impl_G : forall i st, Inv st -> G st -> G (fst (delete_impl i st)).
@@ -103,7 +106,7 @@ Proof.
     intros j o Hj Hjk. unfold only. destruct (Nat.eqb_spec j i); [subst|auto].
     assert (Ko : okey o = Some k /\ odel o = false).
     { rewrite <- (get_nth _ _ _ Hj), autobegin_get. auto. }
-    destruct Ko as [K1 K2]. revert Hjk K1 K2. generalize (tx (autobegin st)). intros [[]|]; kcase. }
+    destruct Ko as [K1 K2]. revert Hjk K1 K2. generalize (tx (autobegin st)). intros t0; unfold jk; generalize (act t0); clear t0; intros []; kcase. }
   exact (HG' Hb).
 Qed.
 
@@ -188,7 +191,7 @@ Qed.
 Lemma end_tx_G : forall st, Inv st -> G st -> G (end_tx st).
 Proof.
   intros st HI HG Hb k o' Hk. simpl in *. apply app_all_inv_nth in Hk as [o [Hk ->]].
-  specialize (HG Hb k o Hk). simpl in HG. revert HG. generalize (tx st). intros [[]|]; kcase.
+  specialize (HG Hb k o Hk). simpl in HG. revert HG. generalize (tx st). intros t0; unfold jk; generalize (act t0); clear t0; intros []; kcase.
 Qed.
 
 (* ---- flush ------------------------------------------------------------------------------------------------ *)
@@ -260,13 +263,13 @@ Lemma register_obj_jk : forall newk o, jk (Some false) o = true ->
   osess o && negb (itdel o) && (inew o || is_some (okey o)) = true ->
   jk (Some false) (register_obj true newk o) = true.
 Proof.
-  intros newk o. unfold register_obj. destruct (okey o) as [k0|] eqn:E; try destruct (key_eqb k0 newk); revert E; kcase.
+  intros newk o. unfold register_obj. destruct (okey o) as [k0|] eqn:E; try destruct (key_eqb k0 newk); revert E; kcase2.
 Qed.
 
 Lemma regfact_register : forall newk o, osess o && negb (itdel o) && (inew o || is_some (okey o)) = true ->
   let o' := register_obj true newk o in osess o' && negb (itdel o') && (inew o' || is_some (okey o')) = true.
 Proof.
-  intros newk o. unfold register_obj. destruct (okey o) as [k0|] eqn:E; try destruct (key_eqb k0 newk); revert E; ocase.
+  intros newk o. unfold register_obj. destruct (okey o) as [k0|] eqn:E; try destruct (key_eqb k0 newk); revert E; ocase2.
 Qed.
 
 Lemma register_fold_K : forall (reg : nat -> bool) l st,
@@ -360,7 +363,7 @@ Proof.
   { apply (pass_mono_cond (fun i => is_dirty e st0 i && negb (ehasid e i))); auto. apply mono_expire. }
   assert (G1 : G st0').
   { apply G_pass; auto. intros k o Hk Hj. destruct (is_dirty e st0 k && negb (ehasid e k)); auto.
-    revert Hj. generalize (tx st0). intros [[]|]; kcase. }
+    revert Hj. generalize (tx st0). intros t0; unfold jk; generalize (act t0); clear t0; intros []; kcase. }
   assert (T1 : tx st0' = Some false) by exact T0.
   pose proof (organize_inv e (fun d => isdel (get st0' d)) (rows e) (all_idx st0') st0' I1) as I2.
   pose proof (organize_G e (fun d => isdel (get st0' d)) (rows e) (all_idx st0') st0' G1) as G2.
@@ -441,9 +444,9 @@ Proof.
 Qed.
 
 Lemma expire_jk : forall t o, jk t o = true -> jk t (expire_obj o) = true.
-Proof. intros [[]|]; kcase. Qed.
+Proof. intros t; unfold jk; generalize (act t); clear t; intros []; kcase. Qed.
 Lemma set_pk_jk : forall t v o, jk t o = true -> jk t (set_pk v o) = true.
-Proof. intros [[]|]; kcase. Qed.
+Proof. intros t; unfold jk; generalize (act t); clear t; intros []; kcase. Qed.
 Lemma G_only : forall i g st, Inv st -> G st -> (forall o, jk (tx st) o = true -> jk (tx st) (g o) = true) ->
   G (app_all (only i g) st).
 Proof. intros. apply G_pass; auto. intros k o _ Hj. unfold only. destruct (Nat.eqb k i); auto. Qed.
@@ -557,7 +560,7 @@ Qed.
 
 Lemma commit_jk : forall t o, act t = true -> jk t o = true ->
   jk t (let o1 := if iimap o then expire_obj o else o in if itdel o1 then detach_obj false o1 else o1) = true.
-Proof. intros [[]|]; kcase. Qed.
+Proof. intros t; unfold jk; generalize (act t); clear t; intros []; kcase. Qed.
 
 Lemma do_commit_G : forall e st, Inv st -> G st -> G (rst (do_commit e st)).
 Proof.
@@ -631,9 +634,9 @@ Proof.
 Qed.
 
 Lemma jk_pm : forall t o, jk t o = true -> implb (persistent o) (iimap o) = true.
-Proof. intros [[]|]; kcase. Qed.
+Proof. intros t; unfold jk; generalize (act t); clear t; intros []; kcase. Qed.
 Lemma jk_ma : forall t o, jk t o = true -> implb (iimap o) (osess o) = true.
-Proof. intros [[]|]; kcase. Qed.
+Proof. intros t; unfold jk; generalize (act t); clear t; intros []; kcase. Qed.
 
 (* while the ghost flag is down: persistent -> mapped, mapped -> attached, one persistent object per identity *)
 Theorem guarded_consistent : forall b pks h, bad (run h (init b pks)) = false ->
